@@ -281,6 +281,13 @@ func genC11(seed uint64, tier, outdir string) *Report {
 	l1StepHook = c11Step
 	texts = append(texts, runRandomL1(rep, tt, seed+7777, 1+len(texts), nB, length, w2, twoBridgeSetup(2*sec, 5*sec), mons, interest)...)
 	l1StepHook = nil
-	writeShardsTerms(outdir, "C11", l1CaseHeader, "run_l1case", "l1case", texts, 16, rep, tt)
+	// one long log per run: suffix deletes of 101 and of a boundary count; thorough: the whole chain on 257 outputs
+	fill, dels := 130, []int{101, []int{99, 100, 128, 129}[seed%4]}
+	if tier == "thorough" {
+		fill, dels = 257, []int{99, 100, 101, 128, 129, 256, 257}
+	}
+	long := l1CaseText(longLogCase(rep, "C11", seed+31, 1+len(texts), fill, dels, mons), tt)
+	nf := writeShardsTerms(outdir, "C11", l1CaseHeader, "run_l1case", "l1case", texts, 15, rep, tt, 0)
+	writeShardsTerms(outdir, "C11", l1CaseHeader, "run_l1case", "l1case", []string{long}, 1, rep, tt, nf) // its own file: it is the longest single evaluation
 	return rep
 }
